@@ -1979,3 +1979,81 @@ func r139(c *Ctx, r *R) {
 		r.Und("makeDAG:loop", md.Pos(), "the leaf loop of makeDAG was not recognised")
 	}
 }
+
+func init() {
+	register(&Rule{ID: "R07.9", Props: []string{"C07", "C02"}, Floor: 3, Title: "the subject of the pubsub trust test is authentic and Distrust always takes effect: the gossipsub instance signs and strictly verifies messages (an unsigned message with a forged author is dropped before the validator sees it); Trust and Distrust reach the trusted set on every path", Run: r079})
+}
+
+func r079(c *Ctx, r *R) {
+	f := c.fn(r, "", "newPubSub")
+	if f != nil {
+		signing, strict, policy := "", "", ""
+		for _, ci := range callsIn(f) {
+			cn := callName(ci.Common())
+			switch {
+			case nameMatches(cn, "go-libp2p-pubsub.WithMessageSigning"):
+				if k, ok := constOf(ci.Common().Args[0]); ok && k != nil {
+					signing = k.String()
+				} else {
+					signing = "?"
+				}
+			case nameMatches(cn, "go-libp2p-pubsub.WithStrictSignatureVerification"):
+				if k, ok := constOf(ci.Common().Args[0]); ok && k != nil {
+					strict = k.String()
+				} else {
+					strict = "?"
+				}
+			case nameMatches(cn, "go-libp2p-pubsub.WithMessageSignaturePolicy"):
+				if k, ok := constOf(ci.Common().Args[0]); ok && k != nil {
+					policy = k.String()
+				} else {
+					policy = "?"
+				}
+			case nameMatches(cn, "go-libp2p-pubsub.WithNoAuthor"), nameMatches(cn, "go-libp2p-pubsub.WithMessageAuthor"):
+				policy = "author-override"
+			}
+		}
+		// StrictSign = msgSigning|msgVerification = 3 in go-libp2p-pubsub
+		strictSign := ""
+		if pp := c.P.All["github.com/libp2p/go-libp2p-pubsub"]; pp != nil && pp.Types != nil {
+			if o, ok := pp.Types.Scope().Lookup("StrictSign").(*types.Const); ok {
+				strictSign = o.Val().String()
+			}
+		}
+		ok := (signing == "true" && strict == "true" && policy == "") || (policy != "" && policy == strictSign && signing != "false" && strict != "false")
+		r.Check(ok, "pubsub:strict-signing", f.Pos(), "gossipsub is created with message signing and strict signature verification", fmt.Sprintf("gossipsub is not created with signing and strict signature verification (signing=%q strict=%q policy=%q, StrictSign=%s): unsigned messages are accepted, so the author the trust validator tests (msg.GetFrom) can be forged by any swarm member", signing, strict, policy, strictSign))
+	}
+	for _, name := range []string{"Distrust", "Trust"} {
+		g := c.fn(r, "consensus/crdt", "Consensus."+name)
+		if g == nil {
+			continue
+		}
+		op := "(*sync.Map).Delete"
+		if name == "Trust" {
+			op = "(*sync.Map).Store"
+		}
+		ops := findCalls(g, false, op)
+		okAll := len(ops) > 0
+		for _, ret := range returnsOf(g) {
+			if ret.Block() == g.Recover {
+				continue
+			}
+			dom := false
+			for _, o := range ops {
+				if o.Block() == ret.Block() || o.Block().Dominates(ret.Block()) {
+					dom = true
+				}
+			}
+			// an error return may precede it; a nil return may not
+			if !dom && isNilConst(retResult(ret, 0)) {
+				okAll = false
+			}
+			if !dom && !isNilConst(retResult(ret, 0)) {
+				if call, _ := originCall(retResult(ret, 0)); call == nil {
+					okAll = false
+				}
+			}
+		}
+		r.Check(okAll, "crdt."+name+":always-takes-effect", g.Pos(), name+" reaches the trusted set before every successful return", name+" can return success without having updated the trusted set: the call is silently ignored and the peer keeps (or never gets) its trust")
+	}
+}
